@@ -20,3 +20,4 @@ def lemma(*a, **k): pass
 def contract_family(*a, **k): pass
 def record_override(*a, **k): pass
 def MapOf(k, v): return ('MapOf', k, v)
+def record(*a, **k): pass
